@@ -39,6 +39,10 @@ type GNode struct {
 
 type GraphCase struct {
 	Nodes []GNode `json:"nodes"`
+	// From, To: the optional transition that Dot highlights (colours
+	// only: the graph drawn has to stay the same)
+	From string `json:"from,omitempty"`
+	To   string `json:"to,omitempty"`
 }
 
 var nodeNames = []string{"start", "n1", "n2", "a_b", "n-1", "n.2", "my node", `q"x`, "né", "error", "Ünï", "x'y", "a&b", "<n>", "@t", "@done"}
@@ -95,6 +99,11 @@ func genGraph(t *rapid.T) GraphCase {
 			}
 		}
 		c.Nodes = append(c.Nodes, g)
+	}
+	if rapid.Bool().Draw(t, "highlight") {
+		pool := append(append([]string{}, names...), "", "nowhere", "start")
+		c.From = rapid.SampledFrom(pool).Draw(t, "from")
+		c.To = rapid.SampledFrom(pool).Draw(t, "to")
 	}
 	return c
 }
@@ -239,7 +248,10 @@ func checkGraph(c GraphCase) (v ev.Verdict) {
 	}
 	var dot wc
 	var derr error
-	if p := trapPanic(func() { derr = tools.Dot(spec, &dot, "", "") }); p != "" {
+	if c.From != "" || c.To != "" {
+		v.Class("dot-highlighted-transition")
+	}
+	if p := trapPanic(func() { derr = tools.Dot(spec, &dot, c.From, c.To) }); p != "" {
 		v.Failf("Dot panicked: %s", p)
 		return
 	}
